@@ -241,12 +241,17 @@ var _ Reader = (*iavl.MutableTree)(nil)
 // value, and a non-membership proof whose neighbour has an empty value, cannot verify whatever the
 // tree does (a limit of the trusted verifier, not of iavl).
 func ProofCheckable(snap model.Snap, k []byte) bool {
+	// (the same holds for the empty KEY: ics23's LeafOp needs a key, so neither the empty key nor
+	// an absent key whose neighbour is the empty key can be proven to that verifier)
+	if len(k) == 0 {
+		return false
+	}
 	if v, ok := snap[string(k)]; ok {
 		return len(v) > 0
 	}
 	keys := snap.Keys()
 	i := sort.SearchStrings(keys, string(k))
-	if i > 0 && len(snap[keys[i-1]]) == 0 {
+	if i > 0 && (len(snap[keys[i-1]]) == 0 || len(keys[i-1]) == 0) {
 		return false
 	}
 	if i < len(keys) && len(snap[keys[i]]) == 0 {
